@@ -204,4 +204,11 @@ def r4_text_and_binary(ctx: Ctx) -> None:
     ctx.count("binary_facts", 6)
 
 
-RULES = [r1_field_packing, r2_directive_chain, r3_order_and_multiplicity, r4_text_and_binary]
+
+def rb_binding_agreement(ctx: Ctx) -> None:
+    from ..ownership import binding_agreement
+
+    binding_agreement(ctx)
+
+
+RULES = [r1_field_packing, r2_directive_chain, r3_order_and_multiplicity, r4_text_and_binary, rb_binding_agreement]
